@@ -673,6 +673,17 @@ type FileCase struct {
 	Paths   []SVGPath `json:"paths"`
 	Circles []Circle  `json:"circles"`
 	ViaFile bool      `json:"via_file"`
+	// VBSize (via file): width and height written in the file's viewBox attribute when they are
+	// not the size the converter is called with (the transform is configured by the size
+	// argument, the viewBox origin and outSize).
+	VBSize *[2]int `json:"viewbox_size,omitempty"`
+}
+
+func (c FileCase) vbSize() [2]int {
+	if c.VBSize != nil {
+		return *c.VBSize
+	}
+	return [2]int{c.Size, c.Size}
 }
 
 func (c FileCase) expected() ([]exp, error) {
@@ -833,7 +844,7 @@ func checkFile(c FileCase) error {
 	}
 	defer os.RemoveAll(dir)
 	var svg bytes.Buffer
-	fmt.Fprintf(&svg, `<svg xmlns="http://www.w3.org/2000/svg" width="%d" height="%d" viewBox="%v %v %d %d">`+"\n", c.Size, c.Size, float32(c.VBX), float32(c.VBY), c.Size, c.Size)
+	fmt.Fprintf(&svg, `<svg xmlns="http://www.w3.org/2000/svg" width="%d" height="%d" viewBox="%v %v %d %d">`+"\n", c.Size, c.Size, float32(c.VBX), float32(c.VBY), c.vbSize()[0], c.vbSize()[1])
 	for _, p := range c.Paths {
 		fmt.Fprintf(&svg, `<path d="%s"`, p.D)
 		if p.Opacity != nil {
@@ -886,6 +897,14 @@ func TestConverterPathsAndFiles(t *testing.T) {
 			c.VBY = ops.F32(float32(rapid.IntRange(-12, 12).Draw(t, "vby")))
 		} else {
 			nFile++
+			if rapid.Bool().Draw(t, "file.origin") {
+				c.VBX = ops.F32(float32(rapid.IntRange(-12, 12).Draw(t, "vbx")))
+				c.VBY = ops.F32(float32(rapid.IntRange(-12, 12).Draw(t, "vby")))
+			}
+			if rapid.IntRange(0, 2).Draw(t, "file.vbsize") == 0 {
+				c.VBSize = &[2]int{rapid.SampledFrom([]int{12, 18, 24, 32, 36, 48, 96}).Draw(t, "vbw"), rapid.SampledFrom([]int{12, 18, 24, 32, 36, 48, 96}).Draw(t, "vbh")}
+			}
+			c.OutSize = ops.F32(rapid.SampledFrom([]float32{48, 48, 64, 24}).Draw(t, "file.out"))
 		}
 		opacities := []float32{0.5, 0.25, 0.3, 0.54, 0.87, 0.1}
 		np := rapid.IntRange(0, 5).Draw(t, "npaths")
@@ -963,6 +982,12 @@ func TestConverterPathsAndFiles(t *testing.T) {
 		}
 		if c.ViaFile {
 			labels = append(labels, "via-ParseFile")
+			if c.VBX != 0 || c.VBY != 0 {
+				labels = append(labels, "file-viewbox-with-an-origin")
+				if c.VBSize != nil && c.VBSize[0] != c.Size {
+					labels = append(labels, "file-viewbox-with-an-origin-and-another-width-than-the-size-argument")
+				}
+			}
 		}
 		if len(c.Paths) > 1 {
 			labels = append(labels, "several-paths")
